@@ -95,6 +95,46 @@ def lexer_tables(tree):
     return reserved, alias
 
 
+def lexer_rule_order(tree):
+    """The rules in the order of PLY's master regular expression: function
+    rules in order of definition, then string rules by decreasing length of
+    the regex text (stable over the alphabetical order of their names).
+    Python's `re` tries the alternatives of the master regex, and of each
+    rule, in order and takes the FIRST that matches."""
+    cls = find_class(tree, 'Lexer')
+    funcs, strings = [], []
+    for n in cls.body:
+        if isinstance(n, ast.FunctionDef) and n.name.startswith('t_') and n.name != 't_error':
+            doc = ast.get_docstring(n, clean=False)
+            funcs.append((n.lineno, n.name[2:], doc))
+        elif isinstance(n, ast.Assign) and isinstance(n.targets[0], ast.Name) and n.targets[0].id.startswith('t_'):
+            name = n.targets[0].id[2:]
+            if name == 'ignore':
+                continue
+            strings.append((name, ast.literal_eval(n.value)))
+    funcs.sort()
+    strings.sort(key=lambda x: x[0])
+    strings.sort(key=lambda x: len(x[1]), reverse=True)
+    rules = []
+    for _, name, doc in funcs:
+        if name == 'NAME':
+            rules.append('RName')
+        elif name == 'trailing_comment':
+            rules.append('RLineComment "\\*"')
+        elif name == 'doubly_delimited_comment':
+            rules.append('RBlockComment "(*" "*)"')
+        elif name == 'newline':
+            rules.append('RNewline')
+        else:
+            rules.append('RLit %s true %s' % (coq_string(name), coq_list([coq_string(a) for a in alternatives(doc)])))
+    for name, rx in strings:
+        if name == 'NUMBER':
+            rules.append('RNumber')
+        else:
+            rules.append('RLit %s false %s' % (coq_string(name), coq_list([coq_string(a) for a in alternatives(rx)])))
+    return rules
+
+
 def parser_tables(tree):
     cls = find_class(tree, 'Parser')
     init = find_func(cls.body, '__init__')
@@ -177,7 +217,14 @@ def main():
     t += '(** doc.md: documented meanings *)\n'
     t += 'Definition doc_meanings : list (string * string) :=\n  ' + coq_list(
         [f'({coq_string(a)}, {coq_string(b)})' for a, b in meanings]) + '.\n'
-    return write_if_changed('ParserTables.v', t)
+    write_if_changed('ParserTables.v', t)
+    rules = lexer_rule_order(tree)
+    r = '(* GENERATED from dd/_parser.py by translator/gen_parser.py -- do not edit *)\n'
+    r += 'From DD Require Import LexRules.\nLocal Open Scope string_scope.\n\n'
+    r += '(** the rules of the character-level lexer in the order of PLY\'s master regular\n'
+    r += '    expression (first match wins): [RLit type is_function_rule alternatives] *)\n'
+    r += 'Definition lex_rules : list lrule :=\n  ' + coq_list(rules) + '.\n'
+    return write_if_changed('LexerRules.v', r)
 
 
 if __name__ == '__main__':
